@@ -81,3 +81,14 @@ impl<'b> Decode<'b, u32> for Keyed {
         Ok(Keyed(v))
     }
 }
+
+/// A value that is *all* items of its frame (a CBOR sequence): decoding consumes the input to its end, so bytes that do
+/// not belong to the frame would show up as extra items.
+#[derive(Clone, Debug, PartialEq)]
+pub struct Seq(pub Vec<u32>);
+impl<C> Encode<C> for Seq {
+    fn encode<W: minicbor::encode::Write>(&self, e: &mut minicbor::Encoder<W>, _: &mut C) -> Result<(), minicbor::encode::Error<W::Error>> { for x in &self.0 { e.u32(*x)?; } Ok(()) }
+}
+impl<'b, C> Decode<'b, C> for Seq {
+    fn decode(d: &mut minicbor::Decoder<'b>, _: &mut C) -> Result<Self, minicbor::decode::Error> { let mut v = Vec::new(); while d.position() < d.input().len() { v.push(d.u32()?) } Ok(Seq(v)) }
+}
